@@ -143,8 +143,43 @@ impl CaseSpec {
     }
 }
 
-/// Offset-keyed content: 8-byte big-endian words mix64(seed + index).
+/// Seeds whose top byte is one of these select a degenerate content class instead of offset-keyed bytes: what a
+/// content-sensitive shortcut (sparse files, run-length tricks, zero-block elision) would treat specially.
+pub const KIND_ZEROS: u64 = 0xC0;
+pub const KIND_SPARSE: u64 = 0xC1;
+pub const KIND_ONES: u64 = 0xC2;
+pub const KIND_TEXT: u64 = 0xC3;
+
+pub fn with_kind(seed: u64, kind: u64) -> u64 {
+    (seed & 0x00FF_FFFF_FFFF_FFFF) | (kind << 56)
+}
+
+/// Offset-keyed content: 8-byte big-endian words mix64(seed + index); see `KIND_*` for the degenerate classes.
 pub fn content(seed: u64, from: u64, to: u64) -> Vec<u8> {
+    match seed >> 56 {
+        KIND_ZEROS => return vec![0u8; (to - from) as usize],
+        KIND_ONES => return vec![0xFFu8; (to - from) as usize],
+        KIND_TEXT => return (from..to).map(|o| if o % 64 == 63 { b'\n' } else { b'a' + (o / 64 % 26) as u8 }).collect(),
+        KIND_SPARSE => {
+            // 64 KiB regions: every second one (keyed) is a hole; elsewhere 512-byte sectors are zero with probability
+            // 1/2; the rest is offset-keyed
+            let key = with_kind(seed, 0);
+            let mut v = Vec::with_capacity((to - from) as usize);
+            let mut o = from;
+            while o < to {
+                let end = ((o / 512 + 1) * 512).min(to);
+                let hole = mix64(key ^ 0xA5A5 ^ (o >> 16)) & 1 == 0 || mix64(key ^ 0x5A5A ^ (o >> 9)) & 1 == 0;
+                if hole {
+                    v.resize(v.len() + (end - o) as usize, 0);
+                } else {
+                    v.extend_from_slice(&content(key, o, end));
+                }
+                o = end;
+            }
+            return v;
+        }
+        _ => {}
+    }
     let mut v = Vec::with_capacity((to - from) as usize);
     let mut o = from;
     while o < to {
